@@ -951,6 +951,12 @@ fn builders_fam(c: &mut Case) {
     scverif::builders::case(c, "C06")
 }
 
+/// the uniform api traits (Predictor / SupervisedEstimator / UnsupervisedEstimator / Transformer) behave
+/// exactly like the inherent methods
+fn api_paths_fam(c: &mut Case) {
+    scverif::apipaths::case(c, "C06")
+}
+
 fn main() {
     runner::main(Spec {
         property: "C06",
@@ -963,6 +969,7 @@ fn main() {
             "member trees are re-hydrated through serde_json::Value (no decimal text round trip), so their thresholds and outputs are bit-exact copies",
         ],
         families: vec![
+            Family::new("api_paths", 300, 3000, api_paths_fam),
             Family::new("builders", 300, 3000, builders_fam),
             Family::new("clf", 5000, 120000, clf),
             Family::new("reg", 4000, 100000, reg),
